@@ -14,19 +14,19 @@ func init() { checkers["C12"] = checkC12 }
 var transientEnd = map[int64]bool{2: true, 3: true, 4: true, 5: true} // state-changed, disconnected, too-slow, backfill-failed
 
 type c12vb struct {
-	sid        string
-	open       bool
-	final      bool  // ended for good
-	finalN     int
-	awaiting   bool  // transient end seen, re-open expected
-	awaitN     int
-	awaitT     int64
-	posAtEnd   uint64
-	pos        uint64
-	end        uint64 // requested end (finite mode)
-	emittedLE  map[uint64]bool
-	delivered  map[uint64]bool
-	fails      int
+	sid       string
+	open      bool
+	final     bool // ended for good
+	finalN    int
+	awaiting  bool // transient end seen, re-open expected
+	awaitN    int
+	awaitT    int64
+	posAtEnd  uint64
+	pos       uint64
+	end       uint64 // requested end (finite mode)
+	emittedLE map[uint64]bool
+	delivered map[uint64]bool
+	fails     int
 }
 
 func checkC12(run *Run, res *Result) {
